@@ -35,8 +35,8 @@ Section Flat.
     destruct SS as [|fa0 r0].
     { apply Permutation_nil in Hp. subst SS'. cbn in H1, H2. congruence. }
     assert (Hne' : SS' <> []) by (intros ->; apply Permutation_sym, Permutation_nil in Hp; discriminate).
-    destruct (record_projection o d (fa0 :: r0) n0 _ ltac:(discriminate) HF H1) as (m1 & fs1 & E1 & P1). injection E1 as -> -> ->.
-    destruct (record_projection o d SS' n0 _ Hne' HF' H2) as (m2 & fs2 & E2 & P2). injection E2 as -> -> ->.
+    destruct (record_projection o d (fa0 :: r0) n0 _ ltac:(discriminate) HF H1) as (fs1 & E1 & P1). injection E1 as -> -> ->.
+    destruct (record_projection o d SS' n0 _ Hne' HF' H2) as (fs2 & E2 & P2). injection E2 as -> -> ->.
     specialize (P1 k). specialize (P2 k). pose proof (vals_perm k _ _ Hp) as Hvp. pose proof (missing_perm k _ _ Hp) as Hmp.
     destruct (fget2 k fs1) as [[t1 l1]|], (fget2 k fs2) as [[t2 l2]|]; cbn [option_map fst].
     - destruct P1 as (_ & T1 & R1 & ->). destruct P2 as (_ & T2 & R2 & ->). destruct (Hleaf k) as (l & Hl).
